@@ -657,6 +657,11 @@ func (p *Parser) parseFieldElements(curObj *Object) parseResult {
 					}
 				}
 
+				// The byte list cannot extend past the end of the buffer package
+				if remaining := uint64(p.r.pkgEnd - p.r.Offset()); dataLen > remaining {
+					dataLen = remaining
+				}
+
 				connArg = p.objTree.newObject(pOpIntByteList, p.tableHandle)
 				connArg.amlOffset = origOffset
 				p.parseByteList(connArg, uint32(dataLen))
